@@ -70,6 +70,48 @@ func runListenStop(o Opts) error {
 		}
 		wg.Wait()
 	}
+	// discovery while controllers keep answering across the end of the collection window (from 40 ms before the timeout
+	// to 100 ms after it): whatever arrives in time is returned, and nothing crashes when the window closes mid-stream
+	{
+		ctl, err := net.ListenUDP("udp4", &net.UDPAddr{IP: net.IPv4(127, 0, 0, 1)})
+		if err == nil {
+			const T = 150 * time.Millisecond
+			go func() {
+				buf := make([]byte, 2048)
+				for {
+					n, from, err := ctl.ReadFromUDP(buf)
+					if err != nil {
+						return
+					}
+					if n != 64 {
+						continue
+					}
+					req := append([]byte{}, buf[:n]...)
+					go func() {
+						start := time.Now()
+						time.Sleep(T - 40*time.Millisecond)
+						for k := 0; time.Since(start) < T+100*time.Millisecond; k++ {
+							r := farmReply(req)
+							r[4], r[5], r[6], r[7] = byte(k), byte(k>>8), 0x2a, 0x18
+							ctl.WriteToUDP(r, from)
+							if k%20 == 19 {
+								time.Sleep(200 * time.Microsecond)
+							}
+						}
+					}()
+				}
+			}()
+			port := ctl.LocalAddr().(*net.UDPAddr).Port
+			u := uhppote.NewUHPPOTE(types.BindAddrFrom(netip.AddrFrom4([4]byte{127, 0, 0, 1}), 0), types.BroadcastAddrFrom(netip.AddrFrom4([4]byte{127, 0, 0, 1}), uint16(port)), types.ListenAddrFrom(netip.AddrFrom4([4]byte{127, 0, 0, 1}), 60001), T, nil, false)
+			for round := 0; round < 4; round++ {
+				if _, err := u.GetDevices(); err != nil {
+					fmt.Printf("LISTENSTOP: discovery with replies streaming across the timeout failed: %v\n", err)
+				}
+				time.Sleep(120 * time.Millisecond)
+			}
+			ctl.Close()
+		}
+	}
 	// the scenarios below run side by side (each on its own port); the longest callback is busy for 5.5 s (thorough: 35 s)
 	var scen sync.WaitGroup
 	blocks := []time.Duration{200 * time.Millisecond, 1500 * time.Millisecond, 5500 * time.Millisecond}
